@@ -10,60 +10,95 @@ open Scc
 
 variable {q : Core.Prog} {p : Fun.CheckedProgram}
 
-/-- a term of the fragment in operand position -/
-theorem operand_sim (hq : q.codataTypes = []) (hp : p.codataTypes = []) :
-    ∀ (b : Fun.Term), good b = true → ∀ {ty0 : Core.Ty} {st : CompileState} {B : Core.Term}
+/-- a term of the fragment in operand position (of a statement whose operand has type `i64`) -/
+theorem operand_sim (hcod : CodOK p q) :
+    ∀ (b : Fun.Term), good p b = true → ∀ {st : CompileState} {B : Core.Term}
       {st' : CompileState} {env : Fun.Env} {K : Fun.Stack} {ρ0 ρ : CEnv} {n : Nat} {out : Out}
       (Sx : Core.Term → Core.Stmt),
       (∀ A, A.isVar = false → (Sx A).split = some (.prd, A, Sx)) →
-      compile b ty0 st = .ok (B, st') → StOK q st' → TermNames b st →
-      EnvRel GP q n (fv b) env ρ0 → BoundOn (tfvTerm B []) ρ0 → AgreeOn (tfvTerm B []) ρ0 ρ →
-      (∀ τ, KRel GP q (n + 1) K
+      compile b .i64 st = .ok (B, st') → StOK q st' → TermNames b st →
+      EnvRel (GP p) q n (fv b) env ρ0 → BoundOn (tfvTerm B []) ρ0 → AgreeOn (tfvTerm B []) ρ0 ρ →
+      (∀ τ, KRel (GP p) q (n + 1) K
         (.mutilde ρ (Core.sigmaName n) (Sx (.var .prd (Core.sigmaName n) τ)))) →
       (∀ ρ' n' z τ v V, n ≤ n' → SigExt n ρ ρ' → Core.Env.lookup ρ' z = .ok V →
-        VRel GP q n v V → (z.name = sig → z.id < n') →
-        Chunk p q (R q) true (.ret v K) ⟨Sx (.var .prd z τ), ρ', out, n'⟩) →
-      Chunk p q (R q) false (.eval b env K) ⟨Sx B, ρ, out, n⟩
-  | .var x vty chi, _, _, _, _, _, _, _, _, _, _, _, Sx, hsp, hcB, _, htn, he, _, hag, _, hF =>
-    operand_direct hq Sx hsp (b := .var x vty chi) rfl hcB htn he hag hp hF
-  | .lit k, _, _, _, _, _, _, _, _, _, _, _, Sx, hsp, hcB, _, htn, he, _, hag, _, hF =>
-    operand_direct hq Sx hsp (b := .lit k) rfl hcB htn he hag hp hF
-  | .op a o b, hg, _, _, _, _, _, _, _, _, _, _, Sx, hsp, hcB, _, htn, he, _, hag, _, hF =>
-    operand_direct hq Sx hsp (b := .op a o b) (by simpa [good, pureD] using hg) hcB htn he hag hp hF
-  | .ctor c as cty, hg, _, _, _, _, _, _, _, _, _, _, Sx, hsp, hcB, _, htn, he, _, hag, _, hF =>
-    operand_direct hq Sx hsp (b := .ctor c as cty) (by simpa [good, pureD] using hg) hcB htn he hag hp hF
-  | .paren t, hg, ty0, st, B, st', env, K, ρ0, ρ, n, out, Sx, hsp, hcB, hst, htn, he, hbd, hag, hK, hF => by
+        VRel (GP p) q n v V → (z.name = sig → z.id < n') →
+        Chunk p q (R p q) true (.ret v K) ⟨Sx (.var .prd z τ), ρ', out, n'⟩) →
+      Chunk p q (R p q) false (.eval b env K) ⟨Sx B, ρ, out, n⟩
+  | .var x vty chi, hg, st, B, st', _, _, _, _, _, _, Sx, hsp, hcB, hst, htn, he, hbd, hag, _, hF => by
+    simp only [good] at hg
+    obtain ⟨τ, rfl, hnc⟩ := hcod.ncd hg
+    have hB : B = .var .prd ⟨x, 0⟩ (compileTy τ) := by
+      rw [c_var] at hcB
+      simp only [Except.ok.injEq, Prod.mk.injEq] at hcB
+      exact hcB.1.symm
+    exact operand_direct Sx hsp (b := .var x (some τ) chi) rfl hcB hst htn he hbd hag
+      (by rw [hB]; exact hnc) hF
+  | .lit k, _, st, B, st', _, _, _, _, _, _, Sx, hsp, hcB, hst, htn, he, hbd, hag, _, hF => by
+    have hB : B = .lit k := by
+      rw [c_lit] at hcB
+      simp only [Except.ok.injEq, Prod.mk.injEq] at hcB
+      exact hcB.1.symm
+    exact operand_direct Sx hsp (b := .lit k) rfl hcB hst htn he hbd hag (by rw [hB]; rfl) hF
+  | .op a o b, hg, st, B, st', _, _, _, _, _, _, Sx, hsp, hcB, hst, htn, he, hbd, hag, _, hF => by
+    simp only [good, Bool.and_eq_true] at hg
+    have hB : B.ty = .i64 := by
+      rw [c_op] at hcB
+      cases hca : compile a .i64 st with
+      | error e => simp [hca] at hcB
+      | ok ra =>
+        cases hcb : compile b .i64 ra.2 with
+        | error e => simp [hca, hcb] at hcB
+        | ok rb =>
+          simp only [hca, hcb, Except.ok.injEq, Prod.mk.injEq] at hcB
+          rw [← hcB.1]; rfl
+    exact operand_direct Sx hsp (b := .op a o b)
+      (by simp [pureD, goodP_pureFO p a hg.1, goodP_pureFO p b hg.2]) hcB hst htn he hbd hag
+      (by rw [hB]; rfl) hF
+  | .ctor c as cty, hg, st, B, st', _, _, _, _, _, _, Sx, hsp, hcB, hst, htn, he, hbd, hag, _, hF => by
+    simp only [good, Bool.and_eq_true] at hg
+    obtain ⟨τ, rfl, hnc⟩ := hcod.ncd hg.2
+    have hB : B.ty = compileTy τ := by
+      rw [c_ctor] at hcB
+      cases hca : compileSubst as st with
+      | error e => simp [hca] at hcB
+      | ok ra =>
+        simp only [hca, Except.ok.injEq, Prod.mk.injEq] at hcB
+        rw [← hcB.1]; rfl
+    exact operand_direct Sx hsp (b := .ctor c as (some τ))
+      (by simp [pureD, goodPs_pureFOs p as hg.1]) hcB hst htn he hbd hag (by rw [hB]; exact hnc) hF
+  | .paren t, hg, st, B, st', env, K, ρ0, ρ, n, out, Sx, hsp, hcB, hst, htn, he, hbd, hag, hK, hF => by
     have f1 : FSteps p (.eval (.paren t) env K) (.eval t env K) [] 1 := .one rfl
     refine Chunk.prefix f1 (.refl _) rfl (fun h => by cases h) ?_
-    exact operand_sim hq hp t (by simpa [good] using hg) Sx hsp (by rwa [c_paren] at hcB) hst
+    exact operand_sim hcod t (by simpa [good] using hg) Sx hsp (by rwa [c_paren] at hcB) hst
       ⟨by simpa [fv] using htn.fv, by simpa [binderNames] using htn.bd, htn.nosig⟩
       (by simpa [fv] using he) hbd hag hK hF
-  | .label a t lty, hg, _, _, _, _, _, _, _, _, _, _, Sx, hsp, hcB, hst, htn, he, hbd, hag, hK, _ =>
-    operand_label hq Sx hsp hg hcB hst htn he hbd hag hK
-  | .ifc s a b t e ty, hg, _, _, _, _, _, _, _, _, _, _, Sx, hsp, hcB, hst, htn, he, hbd, hag, hK, _ =>
-    operand_default hq Sx hsp hg hcB (c_ifc ..) hst htn he hbd hag hK
-  | .ifz s a t e ty, hg, _, _, _, _, _, _, _, _, _, _, Sx, hsp, hcB, hst, htn, he, hbd, hag, hK, _ =>
-    operand_default hq Sx hsp hg hcB (c_ifz ..) hst htn he hbd hag hK
-  | .print nl a n' ty, hg, _, _, _, _, _, _, _, _, _, _, Sx, hsp, hcB, hst, htn, he, hbd, hag, hK, _ =>
-    operand_default hq Sx hsp hg hcB (c_print ..) hst htn he hbd hag hK
-  | .letIn x vt b i ty, hg, _, _, _, _, _, _, _, _, _, _, Sx, hsp, hcB, hst, htn, he, hbd, hag, hK, _ =>
-    operand_default hq Sx hsp hg hcB (c_letIn ..) hst htn he hbd hag hK
-  | .call f as ty, hg, _, _, _, _, _, _, _, _, _, _, Sx, hsp, hcB, hst, htn, he, hbd, hag, hK, _ =>
-    operand_default hq Sx hsp hg hcB (c_call ..) hst htn he hbd hag hK
-  | .case s ta cs ty, hg, _, _, _, _, _, _, _, _, _, _, Sx, hsp, hcB, hst, htn, he, hbd, hag, hK, _ =>
-    operand_default hq Sx hsp hg hcB (c_case ..) hst htn he hbd hag hK
-  | .goto a t ty, hg, _, _, _, _, _, _, _, _, _, _, Sx, hsp, hcB, hst, htn, he, hbd, hag, hK, _ =>
-    operand_default hq Sx hsp hg hcB (c_goto ..) hst htn he hbd hag hK
-  | .exit t ty, hg, _, _, _, _, _, _, _, _, _, _, Sx, hsp, hcB, hst, htn, he, hbd, hag, hK, _ =>
-    operand_default hq Sx hsp hg hcB (c_exit ..) hst htn he hbd hag hK
-  | .new .., hg, _, _, _, _, _, _, _, _, _, _, _, _, _, _, _, _, _, _, _, _ => by simp [good] at hg
-  | .dtor .., hg, _, _, _, _, _, _, _, _, _, _, _, _, _, _, _, _, _, _, _, _ => by simp [good] at hg
+  | .label a t lty, hg, _, _, _, _, _, _, _, _, _, Sx, hsp, hcB, hst, htn, he, hbd, hag, hK, _ =>
+    operand_label Sx hsp hcod hg hcB hst htn he hbd hag hK
+  | .ifc s a b t e ty, hg, _, _, _, _, _, _, _, _, _, Sx, hsp, hcB, hst, htn, he, hbd, hag, hK, _ =>
+    operand_default Sx hsp hg hcB (c_ifc ..) rfl hst htn he hbd hag hK
+  | .ifz s a t e ty, hg, _, _, _, _, _, _, _, _, _, Sx, hsp, hcB, hst, htn, he, hbd, hag, hK, _ =>
+    operand_default Sx hsp hg hcB (c_ifz ..) rfl hst htn he hbd hag hK
+  | .print nl a n' ty, hg, _, _, _, _, _, _, _, _, _, Sx, hsp, hcB, hst, htn, he, hbd, hag, hK, _ =>
+    operand_default Sx hsp hg hcB (c_print ..) rfl hst htn he hbd hag hK
+  | .letIn x vt b i ty, hg, _, _, _, _, _, _, _, _, _, Sx, hsp, hcB, hst, htn, he, hbd, hag, hK, _ =>
+    operand_default Sx hsp hg hcB (c_letIn ..) rfl hst htn he hbd hag hK
+  | .call f as ty, hg, _, _, _, _, _, _, _, _, _, Sx, hsp, hcB, hst, htn, he, hbd, hag, hK, _ =>
+    operand_default Sx hsp hg hcB (c_call ..) rfl hst htn he hbd hag hK
+  | .case s ta cs ty, hg, _, _, _, _, _, _, _, _, _, Sx, hsp, hcB, hst, htn, he, hbd, hag, hK, _ =>
+    operand_default Sx hsp hg hcB (c_case ..) rfl hst htn he hbd hag hK
+  | .dtor s d ta as ty, hg, _, _, _, _, _, _, _, _, _, Sx, hsp, hcB, hst, htn, he, hbd, hag, hK, _ =>
+    operand_default Sx hsp hg hcB (c_dtor ..) rfl hst htn he hbd hag hK
+  | .goto a t ty, hg, _, _, _, _, _, _, _, _, _, Sx, hsp, hcB, hst, htn, he, hbd, hag, hK, _ =>
+    operand_default Sx hsp hg hcB (c_goto ..) rfl hst htn he hbd hag hK
+  | .exit t ty, hg, _, _, _, _, _, _, _, _, _, Sx, hsp, hcB, hst, htn, he, hbd, hag, hK, _ =>
+    operand_default Sx hsp hg hcB (c_exit ..) rfl hst htn he hbd hag hK
+  | .new .., hg, _, _, _, _, _, _, _, _, _, _, _, _, _, _, _, _, _, _, _ => by simp [good] at hg
 
 /-! ## entering a translated sub-statement -/
 
 theorem CRel.sigExt {n m : Nat} {k : Fun.Stack} {c : Core.Term} {ρ0 ρ0' : CEnv}
-    (h : CRel GP q n k c ρ0) (he : SigExt m ρ0 ρ0')
-    (hc : ∀ b ∈ tfvTerm c [], b.var.name = sig → b.var.id < m) : CRel GP q n k c ρ0' :=
+    (h : CRel (GP p) q n k c ρ0) (he : SigExt m ρ0 ρ0')
+    (hc : ∀ b ∈ tfvTerm c [], b.var.name = sig → b.var.id < m) : CRel (GP p) q n k c ρ0' :=
   h.agree fun b hb => he.lookup b.var (hc b hb)
 
 theorem ConsNames.sig_lt {c : Core.Term} {st : CompileState} {i m : Nat} (h : ConsNames c st i)
@@ -81,10 +116,10 @@ theorem ConsNames.sig_lt {c : Core.Term} {st : CompileState} {i m : Nat} (h : Co
 (by machine-fresh names that are new for `c`) one that agrees with an ideal environment -/
 theorem srel_enter {t : Fun.Term} {c : Core.Term} {T : Core.Stmt} {i m n' : Nat} {env : Fun.Env}
     {k : Fun.Stack} {ρ0 ρ ρ' : CEnv} {out : Out}
-    (hg : good t = true) (hc : Compiled q i t c T) (him : i ≤ m) (hin : i ≤ n')
-    (he : EnvRel GP q n' (fv t) env ρ0) (hr : CRel GP q n' k c ρ0)
+    (hg : good p t = true) (hc : Compiled q i t c T) (him : i ≤ m) (hin : i ≤ n')
+    (he : EnvRel (GP p) q n' (fv t) env ρ0) (hr : CRel (GP p) q n' k c ρ0)
     (hb : BoundOn (tfvStmt T []) ρ0) (ha : AgreeOn (tfvStmt T []) ρ0 ρ) (hext : SigExt m ρ ρ') :
-    R q (.eval t env k) ⟨T, ρ', out, n'⟩ := by
+    R p q (.eval t env k) ⟨T, ρ', out, n'⟩ := by
   obtain ⟨ρ0', hext0, hag⟩ := hext.agree (ρ0 := ρ0)
   obtain ⟨st, st', h1, h2, h3, h4⟩ := hc
   exact SRel.eval (ρ0 := ρ0') hg ⟨st, st', h1, h2, h3, h4.mono hin⟩
